@@ -182,7 +182,9 @@ def gen_malformed(rng, tier, valid):
             add(m, "malformed-length")
         m = bytearray(b); i = rng.randrange(len(m)); m[i] ^= 1 << rng.randrange(8)
         add(m, "malformed-bitflip")
-        add(bytes(b) + rtail(rng, rng.randrange(1, 6)), "trailing-bytes")
+        # a well-formed EBP followed by other bytes (decode_ser is stated for any `rest`; Data() returns the EBP alone)
+        out.append(Case(READ + " " + vlib.hx(bytes(b) + rtail(rng, rng.randrange(1, 6))), kind="trailing-bytes", decides=True,
+                        nontrivial=True, theorem="C12_decode_ser_comcast/cablelabs (rest <> [])"))
     # every truncation of a few rich vectors
     for b in sample[:6 if tier == "quick" else 40]:
         for k in range(len(b)):
@@ -279,7 +281,9 @@ def instants(rng, tier):
         for d in (-2, -1, 0, 1, 2):
             t = s * NS + d
             (inr if LO <= t < HI else outr).append(t)
-        for sub in (500000000, 999999997, 3, 232830644, 232830643, 698491931):
+        # 1953125 = 5^9: the sub-second values n = k*5^9 - 1 are the only ones that read back 1 ns late (C12_time_exact_iff)
+        for sub in (500000000, 999999997, 3, 232830644, 232830643, 698491931, 1953124, 1953125, 1953123, 3906249,
+                    511 * 1953125 - 1, 511 * 1953125, 256 * 1953125 - 1):
             t = s * NS + sub
             (inr if LO <= t < HI else outr).append(t)
     inr += [LO, LO + 1, LO + 2, HI - 1, HI - 2, HI - 3, ERA - 2, ERA - 1, ERA, ERA + 1, ERA + 2]
